@@ -21,7 +21,26 @@ CONFIGS = [
 
 def gen_case(rnd):
     r = random.Random(rnd.random())
-    if r.random() < 0.6:
+    q = r.random()
+    if q < 0.2:
+        # many fields, rand sets that are merged late (a statement that joins two groups which already hold several
+        # constraints each), more random fields than one swizzle round pins: the order in which constraints and fields are
+        # handed to the solver matters for the values it picks
+        n = r.randint(6, 8)
+        fs = [{"name": "f%d" % i, "kind": "scalar", "w": 8, "sg": False, "rand": True} for i in range(n)]
+        F = lambda i: ["f", ["f%d" % i]]
+        half = n // 2
+        stmts = []
+        for i in range(half - 1):
+            stmts.append(["expr", ["bin", r.choice(["Lt", "Ne", "Le"]), F(i), F(i + 1)]])
+        for i in range(half, n - 1):
+            stmts.append(["expr", ["bin", r.choice(["Lt", "Ne", "Ge"]), F(i), F(i + 1)]])
+        stmts.append(["expr", ["bin", "Ne", F(n - 1), ["lit", 0]]])
+        stmts.append(["expr", ["bin", r.choice(["Ne", "Lt"]), F(r.randrange(half)), F(r.randrange(half, n))]])     # joins the two groups
+        cls = {"name": "K0", "fields": fs, "blocks": [{"name": "c0", "stmts": stmts}], "pre_randomize": [], "post_randomize": []}
+        base = {"enums": {}, "classes": [cls], "root_cls": "K0"}
+        inlines = [[["expr", ["bin", "Ne", F(0), ["lit", 7]]]], [["expr", ["bin", "Gt", F(n - 1), ["lit", 3]]]]]
+    elif q < 0.68:
         g = solvegen.Gen(r, small=True, tree=r.random() < 0.5)
         base = g.scenario(ncalls=1)
         g.fs = [(list(p), f) for p, f in solvegen.leaves_of(base, base["root_cls"])]
